@@ -94,6 +94,9 @@ def form_worker(args):
     specrun.quiet()
     res = []
     for c, mode in rulecheck.classes(rnd, count, products=(seed % 2 == 0)):
+        # a child with a statistic no parent statistic maps to is outside the documented contract of DisjointUnion
+        # ("the extra variable of the child pointing [to] the variable on the parent it came from"): its variable stays free
+        mode = mode.replace("track", "").strip()
         cand = []
         for s in rulecheck.strategies(mode):
             try:
@@ -158,6 +161,9 @@ def _spec_worker(args):
     cfg, N = args
     out = {"cfg": cfg, "eqs": [], "problems": []}
     specrun.quiet()
+    if "track" in (cfg.get("mode") or ""):
+        out["status"] = "skipped: child with an unmapped statistic (outside the contract of the union's equation)"
+        return out
     try:
         root, spec, _ = specrun.search(cfg)
     except SpecificationNotFound:
@@ -268,6 +274,32 @@ def run(tier, seed, factor=1):
                 res.fail("counts-ne-truth", o["cfg"], "")
         elif "rat_skipped" in o:
             res.dist["closed form skipped: " + o["rat_skipped"][:40]] += 1
+    # (d) the series expansion used to select (and returned with) a closed form: taylor_expand on rational functions, incl.
+    # polynomials of degree below the order and functions of x^2 (zero top coefficients), verified by the Lean series model
+    from comb_spec_searcher.utils import taylor_expand
+
+    trnd = random.Random(seed * 31 + 5)
+    for _ in range(common.scale(tier, 60, 400) * factor):
+        gap = trnd.random() < 0.3
+        pc = [trnd.randint(-3, 3) for _ in range(trnd.randint(1, 4))]
+        qc = [trnd.choice([1, 1, -1])] + ([trnd.randint(-2, 2) for _ in range(trnd.randint(0, 3))] if trnd.random() < 0.7 else [])
+        if gap:
+            pc = [v for c in pc for v in (c, 0)]
+            qc = [v for c in qc for v in (c, 0)]
+        M = trnd.randint(max(len(pc), 1), 12)
+        g = sum(c * X**i for i, c in enumerate(pc)) / sum(c * X**i for i, c in enumerate(qc))
+        inp = {"numerator": pc, "denominator": qc, "order": M}
+        try:
+            te = [int(v) for v in taylor_expand(g, M)]
+        except Exception as exc:  # noqa: BLE001
+            res.diff("taylor_expand raises on a rational function with unit constant denominator", inp, "coefficients", specrun.exc_info(exc))
+            continue
+        if len(te) != M + 1:
+            res.diff("taylor_expand returns a list of the wrong length", inp, M + 1, len(te))
+            continue
+        lines.append(f"rat {M} {','.join(map(str, pc))} | {','.join(map(str, qc))} | {','.join(map(str, te))}")
+        metas.append((1, inp, "taylor"))
+        res.dist["taylor_expand checked" + (" (function of x^2)" if gap else (" (polynomial of degree below the order)" if len(qc) == 1 and len(pc) <= M else ""))] += 1
     out = common.run_driver("C20", "\n".join(lines) + "\n") if lines else []
     assert len(out) == len(lines), (len(out), len(lines))
     pos = 0
@@ -280,6 +312,9 @@ def run(tier, seed, factor=1):
                 raise RuntimeError(f"driver rejected {inp}")
             if verdict != "zero":
                 res.fail("equation-false-on-true-series", inp, verdict)
+        elif kind == "taylor":
+            if verdict != "rat-ok":
+                res.diff("taylor_expand vs the Lean series of numerator/denominator", inp, verdict, "")
         else:
             if verdict != "rat-ok":
                 res.fail("closed-form-coefficients-ne-counts", inp, verdict)
